@@ -238,6 +238,7 @@ func (cx *Ctx) c02Liquidity(r *Report, per map[string][]bev) {
 	// ---- AddLiquidity and AddUnilateralLiquidity
 	for _, name := range []string{"AddLiquidity", "AddUnilateralLiquidity"} {
 		nAdd := 0
+		sawEmpty, sawProp := false, false
 		for fr, evs := range group(name) {
 			kinds := map[string]int{}
 			for _, x := range evs {
@@ -306,17 +307,25 @@ func (cx *Ctx) c02Liquidity(r *Report, per map[string][]bev) {
 				tokD, tokAmt := coinParts(deps[1])
 				r.check(stdAmt == "msg.ExactStandardAmt" && tokD == "msg.MaxToken.Denom", "liquidity-deposit", key, pay.ev.Pos(cx), "deposit = exactly msg.ExactStandardAmt of the standard coin plus "+tokAmt+" of msg.MaxToken.Denom", "deposit differs: "+lastArgS(pay.ev))
 				if tokAmt != "msg.MaxToken.Amount" {
+					sawProp = true
 					r.check(factAt(pay, false, "math.Int.GT("+tokAmt+", msg.MaxToken.Amount)"), "liquidity-bound", key+"|max-token", pay.ev.Pos(cx), "¬(deposit > msg.MaxToken.Amount) holds at the deposit of "+tokAmt, "deposit of "+tokAmt+" is not dominated by the MaxToken check")
 				} else {
+					sawEmpty = true
 					r.ok("liquidity-bound", key+"|max-token", pay.ev.Pos(cx), "deposit is msg.MaxToken.Amount itself (empty pool)")
 				}
 			} else {
 				r.check(lastArgS(pay.ev) == "coins(msg.ExactToken)", "liquidity-deposit", key, pay.ev.Pos(cx), "deposit = exactly msg.ExactToken", "deposit differs: "+lastArgS(pay.ev))
 			}
 		}
-		want := map[string]int{"AddLiquidity": 3, "AddUnilateralLiquidity": 1}[name]
-		if nAdd != want {
-			r.toolErr("%s: %d add paths found, %d confirmed by hand", name, nAdd, want)
+		// (AddLiquidity has three call sites of the deposit-and-mint step today; merging the two
+		// empty-pool sites into one is the same behaviour: what must be seen is at least one
+		// empty-pool path and one proportional path)
+		want := map[string]int{"AddLiquidity": 2, "AddUnilateralLiquidity": 1}[name]
+		if name == "AddLiquidity" && nAdd >= want && !(sawEmpty && sawProp) {
+			nAdd = 0
+		}
+		if nAdd < want {
+			r.toolErr("%s: %d add paths found (empty-pool path seen: %v, proportional path seen: %v), at least %d confirmed by hand", name, nAdd, sawEmpty, sawProp, want)
 		}
 	}
 	// ---- RemoveLiquidity and RemoveUnilateralLiquidity
